@@ -214,9 +214,9 @@ class Executor(Ops2):
             a['proved'] += 1
             return True
         neg = True if c is False else z3.Not(c)
-        if self.opts.get('log_queries') and len(self.queries_log) < self.opts.get('max_logged', 400):
-            self.log_query(st, neg, label)
         r, m = self.check(None if neg is True else neg)
+        if self.opts.get('log_queries') and len(self.queries_log) < self.opts.get('max_logged', 40):
+            self.log_query(st, neg, label, r)
         if r == 'unsat':
             a['proved'] += 1
             return True
@@ -233,13 +233,13 @@ class Executor(Ops2):
             a['more'] = a.get('more', 0) + 1
         return False
 
-    def log_query(self, st, neg, label):
+    def log_query(self, st, neg, label, verdict):
         s = z3.Solver()
         for c in st.pc:
             s.add(c)
         if neg is not True:
             s.add(neg)
-        self.queries_log.append((label, s.to_smt2()))
+        self.queries_log.append((label, verdict, s.to_smt2()))
 
     def witness(self, st, m, label, kind):
         nd = []
@@ -255,7 +255,7 @@ class Executor(Ops2):
         ufs = []
         for (name, args, res) in st.ufapps:
             ufs.append([name, [self.mval(m, a) for a in args], [self.mval(m, r) for r in res]])
-        return dict(label=label, kind=kind, nondet=nd, uf=ufs, maporder=st.maporder,
+        return dict(label=label, kind=kind, nondet=nd, uf=ufs, maporder=st.maporder, tier=self.opts.get('tier', 'quick'),
                     trace=[d for d in st.trace[-40:]])
 
     def mval(self, m, e):
